@@ -227,3 +227,125 @@ theorem assignmentsToActions_verdict (fl : Flags) (o₁ o₂ : Orders) (assignme
     · rw [hsc] at h₁; simp at h₁
   · simp only [hpe] at h₁
     simp at h₁
+
+/-! ### the diagnostics of the loop do not depend on the order -/
+
+/-- what the loop reports for one name, whatever the state of the loop (when the `assert!`s hold) -/
+def nameErrs (fl : Flags) (assignments : AMap Ex) (widths : AMap Width) (declared : List String) (constants : AMap WireValue)
+    (byOutput : AMap FixedFunction) (name : String) : List Diag :=
+  match assignments.get? name with
+  | some expr =>
+    match widths.get? name with
+    | some w =>
+      match check fl widths.toCtx constants.toEnv expr with
+      | .ok ew => (match w.combine ew with
+        | some _ => []
+        | none => [(⟨.MismatchedWireWidths, [name]⟩ : Diag)])
+      | .error ds => ds
+    | none => [⟨.UndeclaredWireAssigned, [name]⟩]
+  | none =>
+    match byOutput.get? name with
+    | some _ => []
+    | none => if declared.contains name then [⟨.UnsetWire, [name]⟩] else []
+
+/-- the names the loop finds neither assigned, driven by a component, nor declared -/
+def nameUndecl (assignments : AMap Ex) (declared : List String) (byOutput : AMap FixedFunction) (name : String) : Bool :=
+  (assignments.get? name).isNone && (byOutput.get? name).isNone && !declared.contains name
+
+section
+variable (fl : Flags) (assignments : AMap Ex) (widths : AMap Width) (declared : List String)
+  (constants : AMap WireValue) (byOutput : AMap FixedFunction)
+
+theorem loopStep_errs (st : LoopState) (name : String)
+    (hrefs : ∀ e, assignments.get? name = some e → ∀ r ∈ refs e, r ∈ st.covered)
+    (hfix : ∀ f, assignments.get? name = none → byOutput.get? name = some f → ∀ i ∈ f.inWires.map (·.1), i ∈ st.covered) :
+    (loopStep fl assignments widths declared constants byOutput st name).errors =
+      st.errors ++ nameErrs fl assignments widths declared constants byOutput name ∧
+    (loopStep fl assignments widths declared constants byOutput st name).seenUndeclared =
+      (if nameUndecl assignments declared byOutput name then setInsert st.seenUndeclared name else st.seenUndeclared) := by
+  unfold loopStep nameErrs nameUndecl
+  cases h1 : assignments.get? name with
+  | some expr =>
+    have hall : (refs expr).all st.covered.contains = true := by
+      rw [List.all_eq_true]
+      intro r hr
+      simpa using hrefs expr h1 r hr
+    simp only [hall, if_true, Option.isNone_some, Bool.false_and, Bool.false_eq_true, if_false]
+    cases h2 : widths.get? name with
+    | none => exact ⟨rfl, rfl⟩
+    | some w =>
+      simp only
+      cases h3 : check fl widths.toCtx constants.toEnv expr with
+      | error ds => exact ⟨rfl, rfl⟩
+      | ok ew =>
+        simp only
+        cases h4 : w.combine ew with
+        | none => exact ⟨rfl, rfl⟩
+        | some _ => exact ⟨by simp, rfl⟩
+  | none =>
+    simp only [Option.isNone_none, Bool.true_and]
+    cases h2 : byOutput.get? name with
+    | some f =>
+      have hall : (f.inWires.map (·.1)).all st.covered.contains = true := by
+        rw [List.all_eq_true]
+        intro i hi
+        simpa using hfix f h1 h2 i hi
+      simp only [hall, if_true, Option.isNone_some, Bool.false_and, Bool.false_eq_true, if_false]
+      exact ⟨by simp, trivial⟩
+    | none =>
+      simp only [Option.isNone_none, Bool.true_and]
+      by_cases hd : declared.contains name = true
+      · simp only [hd, if_true, Bool.not_true, Bool.false_eq_true, if_false]
+        simp
+      · have hd' : declared.contains name = false := by simpa using hd
+        simp only [hd', Bool.false_eq_true, if_false, Bool.not_false, if_true]
+        exact ⟨by simp, trivial⟩
+
+theorem actionsLoop_errs : ∀ (names : List String) (st : LoopState),
+    (∀ pre x post, names = pre ++ x :: post →
+      (∀ e, assignments.get? x = some e → ∀ r ∈ refs e, r ∈ st.covered ∨ r ∈ pre) ∧
+      (∀ f, assignments.get? x = none → byOutput.get? x = some f → ∀ i ∈ f.inWires.map (·.1), i ∈ st.covered ∨ i ∈ pre)) →
+    (actionsLoop fl assignments widths declared constants byOutput names st).errors =
+      st.errors ++ names.flatMap (nameErrs fl assignments widths declared constants byOutput) ∧
+    (actionsLoop fl assignments widths declared constants byOutput names st).seenUndeclared =
+      (names.filter (nameUndecl assignments declared byOutput)).foldl setInsert st.seenUndeclared
+  | [], st, _ => by simp [actionsLoop]
+  | name :: rest, st, hord => by
+    have hstep : actionsLoop fl assignments widths declared constants byOutput (name :: rest) st =
+        actionsLoop fl assignments widths declared constants byOutput rest
+          (loopStep fl assignments widths declared constants byOutput st name) := by
+      simp [actionsLoop]
+    rw [hstep]
+    obtain ⟨h0a, h0b⟩ := hord [] name rest rfl
+    have hr0 : ∀ e, assignments.get? name = some e → ∀ r ∈ refs e, r ∈ st.covered :=
+      fun e he r hr => by rcases h0a e he r hr with h | h; exact h; simp at h
+    have hf0 : ∀ f, assignments.get? name = none → byOutput.get? name = some f → ∀ i ∈ f.inWires.map (·.1), i ∈ st.covered :=
+      fun f h1 h2 i hi => by rcases h0b f h1 h2 i hi with h | h; exact h; simp at h
+    obtain ⟨e1, e2⟩ := loopStep_errs fl assignments widths declared constants byOutput st name hr0 hf0
+    have hcov : ∀ n, n ∈ (loopStep fl assignments widths declared constants byOutput st name).covered ↔ n ∈ st.covered ∨ n = name := by
+      intro n
+      unfold loopStep
+      simp only
+      repeat' split
+      all_goals exact mem_setInsert _ _ _
+    obtain ⟨a1, a2⟩ := actionsLoop_errs rest (loopStep fl assignments widths declared constants byOutput st name) (by
+      intro pre x post hsplit
+      obtain ⟨ha, hb⟩ := hord (name :: pre) x post (by rw [hsplit]; rfl)
+      constructor
+      · intro e he r hr
+        rcases ha e he r hr with h | h
+        · exact Or.inl ((hcov r).mpr (Or.inl h))
+        · rcases List.mem_cons.mp h with h2 | h2
+          · exact Or.inl ((hcov r).mpr (Or.inr h2))
+          · exact Or.inr h2
+      · intro f h1 h2 i hi
+        rcases hb f h1 h2 i hi with h | h
+        · exact Or.inl ((hcov i).mpr (Or.inl h))
+        · rcases List.mem_cons.mp h with h3 | h3
+          · exact Or.inl ((hcov i).mpr (Or.inr h3))
+          · exact Or.inr h3)
+    refine ⟨?_, ?_⟩
+    · rw [a1, e1, List.flatMap_cons, List.append_assoc]
+    · rw [a2, e2, List.filter_cons]
+      split <;> rfl
+end
